@@ -19,6 +19,8 @@ func main() {
 		dev(os.Args[2:])
 	case "check":
 		os.Exit(vc.CheckMain(os.Args[2:]))
+	case "replay":
+		os.Exit(vc.ReplayMain(os.Args[2:]))
 	case "ssa":
 		ssaDump(os.Args[2:])
 	default:
